@@ -154,7 +154,12 @@ fn add_references(rng: &mut Rng, root: &mut Obj) {
             c => c,
         };
         if base == "QLabel" && !widgets.is_empty() && rng.chance(1, 2) {
-            o.bindings.push(("buddy".into(), rng.pick(widgets).clone()));
+            if !actions.is_empty() && rng.chance(1, 10) {
+                // an object of the wrong kind: must be refused (if it were accepted the reference would name a non-widget)
+                o.bindings.push(("buddy".into(), rng.pick(actions).clone()));
+            } else {
+                o.bindings.push(("buddy".into(), rng.pick(widgets).clone()));
+            }
         }
         if (base == "QLabel" || base == "QPushButton" || base == "QLineEdit") && rng.chance(1, 3) {
             // dynamic binding referencing another object → `ui_-><id>` in the header
@@ -173,6 +178,20 @@ fn add_references(rng: &mut Rng, root: &mut Obj) {
         }
     }
     go(rng, root, &widgets, &actions);
+    // an object below a static separator action (illegal): if the document is accepted all the same, nothing may still
+    // refer to the vanished object
+    if rng.chance(1, 10) {
+        let mut sep = Obj::new("QAction");
+        sep.bindings.push(("separator".into(), "true".into()));
+        sep.children.push(Obj::new("QLineEdit").with_id("orphanEdit"));
+        let mut lab = Obj::new("QLabel");
+        lab.bindings.push(("buddy".into(), "orphanEdit".into()));
+        if rng.chance(1, 2) {
+            lab.bindings.push(("toolTip".into(), "orphanEdit.text".into()));
+        }
+        root.children.push(sep);
+        root.children.push(lab);
+    }
 }
 
 fn check_doc(tm: &TypeMap, src: &str) -> Sexp {
@@ -201,12 +220,14 @@ fn check_doc(tm: &TypeMap, src: &str) -> Sexp {
     }
     let root = xml::parse(t.ui.as_ref().unwrap()).expect("well-formed ui");
     let mut declared: HashMap<String, String> = HashMap::new(); // name → kind/class
+    let mut kinds: HashMap<String, String> = HashMap::new(); // name → element name (widget/layout/spacer/action)
     for e in root.descendants() {
         if matches!(e.name.as_str(), "widget" | "layout" | "spacer" | "action") {
             let Some(n) = e.attr("name") else {
                 return node("fail", vec![st(format!("<{}> without name", e.name))]);
             };
             let cls = e.attr("class").unwrap_or(&e.name).to_owned();
+            kinds.insert(n.to_owned(), e.name.clone());
             if declared.insert(n.to_owned(), cls).is_some() {
                 return node("fail", vec![st(format!("name '{n}' declared twice in the .ui"))]);
             }
@@ -237,6 +258,10 @@ fn check_doc(tm: &TypeMap, src: &str) -> Sexp {
             let n = e.text();
             if !declared.contains_key(&n) {
                 return node("fail", vec![st(format!("object reference '{n}' refers to nothing"))]);
+            }
+            // the only object-valued property generated is QLabel.buddy : QWidget*
+            if kinds.get(&n).map(|k| k.as_str()) != Some("widget") {
+                return node("fail", vec![st(format!("object reference '{n}' (a widget-valued property) refers to a <{}>", kinds.get(&n).cloned().unwrap_or_default()))]);
             }
         }
     }
